@@ -181,7 +181,14 @@ class Collector(object):
             if fid is not None:
                 hit.add(fid)
                 if fid not in self.finding_example:
-                    self.finding_example[fid] = {"case": case, "disc": d.to_json()}
+                    focus = getattr(self.mod, "focus", None)
+                    small = None
+                    if focus is not None:
+                        try:
+                            small = focus(case, d.to_json())  # batch cases: the sub-case the discrepancy points at
+                        except Exception:
+                            small = None
+                    self.finding_example[fid] = {"case": small or case, "disc": d.to_json()}
                 continue
             key = bucket_key(d)
             b = self.buckets.get(key)
